@@ -29,6 +29,14 @@ impl<'a> Ctx<'a> {
     fn node(&mut self, board: &mut Board) -> Option<chess::move_generator::ChessMoveList> {
         self.nodes += 1;
         let side = board.turn();
+        // now and then the long-lived generator has just been asked the ANNOTATING question about this very
+        // position (as notation listing, book selection and every search node do): the plain answer that
+        // follows must still be the brand-new generator's answer, annotation field included
+        if self.rng.chance(1, 4) {
+            let _ = guarded(|| {
+                self.long.generate_moves_and_lazily_update_chess_move_effects(board, side);
+            });
+        }
         let long = match guarded(|| self.long.generate_moves(board, side)) {
             Ok(m) => m,
             Err(_) => {
@@ -49,19 +57,22 @@ impl<'a> Ctx<'a> {
             let mut brand_new = MoveGenerator::with_cache_capacity(1);
             fresh = brand_new.generate_moves(board, side);
         }
-        let a: Vec<Mv> = { let mut v: Vec<Mv> = long.iter().map(Mv::of).collect(); v.sort(); v };
-        let b: Vec<Mv> = { let mut v: Vec<Mv> = fresh.iter().map(Mv::of).collect(); v.sort(); v };
+        let a: Vec<(Mv, &'static str)> = { let mut v: Vec<(Mv, &'static str)> = long.iter().map(|m| (Mv::of(m), effect_str(m.effect()))).collect(); v.sort(); v };
+        let b: Vec<(Mv, &'static str)> = { let mut v: Vec<(Mv, &'static str)> = fresh.iter().map(|m| (Mv::of(m), effect_str(m.effect()))).collect(); v.sort(); v };
         let differs = a != b;
+        let with_eff = |v: &Vec<(Mv, &'static str)>| v.iter().map(|(m, e)| { let mut j = m.to_json(); j["e"] = json!(e); j }).collect::<Vec<_>>();
         if differs {
             self.move_diffs += 1;
         }
         let pos = Pos::of_board(board);
-        if differs || self.rng.chance(1, self.sample_one_in) {
+        // (a defect that shows at every node would fill the disk: the first few hundred disagreements are
+        // logged for TLC, all of them are counted in the summary)
+        if (differs && self.move_diffs <= 300) || self.rng.chance(1, self.sample_one_in) {
             writeln!(self.out, "{}", json!({"ev": "Q", "what": "moves", "pos": pos.to_json(), "key": limbs(board.current_position_hash()),
-                "side": pos.turn, "long": a.iter().map(|m| m.to_json()).collect::<Vec<_>>(), "fresh": b.iter().map(|m| m.to_json()).collect::<Vec<_>>()})).unwrap();
+                "side": pos.turn, "long": with_eff(&a), "fresh": with_eff(&b)})).unwrap();
             self.logged += 1;
         }
-        if differs || self.rng.chance(1, self.attack_one_in) {
+        if (differs && self.move_diffs <= 300) || self.rng.chance(1, self.attack_one_in) {
             let mut brand_new = MoveGenerator::with_cache_capacity(1);
             for c in [Color::White, Color::Black] {
                 self.attack_checks += 1;
@@ -72,7 +83,7 @@ impl<'a> Ctx<'a> {
                     if d {
                         self.attack_diffs += 1;
                     }
-                    if d || self.rng.chance(1, 4) {
+                    if (d && self.attack_diffs <= 300) || self.rng.chance(1, 4) {
                         writeln!(self.out, "{}", json!({"ev": "Q", "what": "attacks", "pos": pos.to_json(), "key": limbs(board.current_position_hash()),
                             "side": turn_code(c), "long": x, "fresh": y})).unwrap();
                         self.logged += 1;
